@@ -109,7 +109,11 @@ def model_line_after(case, obs):
     sc = scripts(case)
     nw = sum(1 for x in case.split(" ") if x.startswith("main=") for y in x[5:].split(",") if y == "N")
     progs = [",".join(sc.get("m", []))] + [",".join(sc[k]) for k in sorted((k for k in sc if k != "m"), key=lambda z: int(z[1:]))]
-    return "swr %s %s %s %s %d|%s" % (m.group(1), m.group(2), m.group(4), "1" if " live=1" in case else "0", nw, "|".join(progs))
+    mainops = [y for x in case.split(" ") if x.startswith("main=") for y in x[5:].split(",") if y]
+    last_s = max([i for i, y in enumerate(mainops) if y[0] == "S"] + [-1])
+    first_own = min([i for i, y in enumerate(mainops) if y[0] in "wfd"] + [len(mainops)])
+    late = "1" if first_own > last_s else "0"
+    return "swr %s %s %s %s %d|%s %s" % (m.group(1), m.group(2), m.group(4), "1" if " live=1" in case else "0", nw, "|".join(progs), late)
 
 
 def agree_after(im, mo):
